@@ -31,6 +31,47 @@ CHECKS = {
              "under a watchdog.",
         design="§5 C07", technique="Lean 4 proof (turn-search totality and fairness by induction) + differential "
                                    "correspondence with the real managers under a watchdog"),
+    "C03": dict(
+        text="Lean 4 theorems C03_reachable / C03_every_step / C03_hist over the grid-world state machine (explicit cell "
+             "table stored redundantly with every agent's position; Model/Grid, Movers, Attacks, Placement, Vitals, "
+             "Resets, GridSim): from ANY initial world, after a first full reset (PositionState | "
+             "TargetBarriersFreePlacementState | MazePlacementState + HealthState + AmmoState + OrientationState, in "
+             "any order, any tape) EVERY history of moves (MoveActor, CrossMoveActor, DriftMoveActor), attacks (the four "
+             "attack actors, with the deaths they cause) and further full resets - any agents, actions, tapes, "
+             "interleaving, length, number of episodes - leaves after every single operation a world satisfying the "
+             "decidable invariant WInv: every cell holds only real, active agents whose position is that cell, each "
+             "once, pairwise allowed to overlap (symmetric table); every active agent is stored in the cell of its "
+             "in-grid position; inactive agents are in no cell; 0 <= health <= 1; active <-> health > 0; 0 <= ammo <= "
+             "initial ammo; orientation in 1..4. C03_hist is the form the judge evaluates: histPre (the theorems' "
+             "hypotheses FullReset / CfgOK / NoAmmoC / wfPlacement as Booleans; cfgOKb_iff, noAmmoCb_iff, "
+             "fullResetb_iff, histPre_iff) implies specC03Hist of the model's trace (every world of the trace satisfies "
+             "WInv, no move / attack of an active agent with an action of its action space raises - runGOp_noRaise - "
+             "and the trace covers every operation up to the first reset that fails). Parts: C03_moves_preserve, "
+             "C03_attacks / attack_preserves_WInv_any, C03_reset_establishes (state components in any order), "
+             "C03_place (a placement state alone, given live agents). Tie: HISTORIES on one real world object - real "
+             "state components and real actors called the way the example simulations' step calls them, the world "
+             "dumped after every operation, the whole history replayed by the driver (ghist) and compared step by "
+             "step with traceGOps; specC03Hist is evaluated on the implementation's trace. Exhaustive: five small "
+             "configurations x two first resets x all operation sequences of length 3; then seeded random "
+             "histories of 5..40 operations with several episodes. Also: the per-call streams of C12/C11/C13 re-judged "
+             "with the C03 component of their replies; six real example simulations driven through their own "
+             "reset()/step() with every dumped world judged by the Lean invariant (gwinv, runtime monitor); writes "
+             "through the health / ammo setters. Finding K4 (a drawn initial health of exactly 0.0 leaves an inactive "
+             "agent on the grid) is the out-of-domain stream healthClosed: reproduced on the real code, open.",
+        design="§5 C03", technique="Lean 4 proof (invariant + induction over operation histories, reusing the C12 move, C11 "
+                                   "attack and C13 placement theorems and the vitals lemmas) + whole-history differential "
+                                   "correspondence with the real state components and actors on one world object, plus "
+                                   "the Lean invariant as a runtime monitor over real example simulations",
+        note=NOTE + " C03 specifically: health, strength and accuracy are exact rationals in the model (dyadic test "
+             "values, on which IEEE arithmetic is exact); operations are made the way the packaged simulations' step "
+             "makes them (only for agent.active agents, only actions of the declared action space - the managers "
+             "check membership, C01/C02); acting with an inactive agent is outside the hypothesis (the real MoveActor "
+             "then raises KeyError); np.random.uniform(0, 1) never returns exactly 0 in the regular oracle stream "
+             "(finding K4 is the stream in which it does); a reset may raise (a placement state fails when no legal "
+             "cell exists), which ends the history; the hand-written step glue of the example simulations is "
+             "monitored, not modelled - ReachTheTargetSim deactivates runners by hand (active = False with positive "
+             "health) and is judged by WInvWeak (zero health -> inactive) instead of active <-> health > 0; "
+             "simulations without a HealthState are dumped with health 1; pacman's teleport surgery is not driven."),
     "C12": dict(
         text="Lean 4 theorem C12_moves: for every grid world satisfying the consistency invariant, every active "
              "agent and every action of the action space, MoveActor/CrossMoveActor/DriftMoveActor (modelled branch "
